@@ -113,6 +113,7 @@ type PipeCfg struct {
 	// which ended with checkpoint.SetCheckpoint(stream base) on a fresh connection (database 0, with modification time)
 	StartPath     bool
 	AfterFullSync bool
+	FaultPace     int // crash harness: weight factor of the healthy actions against the restart actions (0/1: as drawn)
 }
 
 func (c PipeCfg) String() string {
@@ -405,6 +406,11 @@ func (ps *PipeSim) startIncarnation() {
 		in.reader = rd
 		in.startOff = start
 		in.startDB = sp.DbId
+		if reused && len(ps.incs) >= 2 {
+			if prev := ps.incs[len(ps.incs)-2]; prev.startDB > 0 && sp.DbId == 0 && !sp.IsInitial() {
+				simrt.Probe("reuse_resumes_in_db0_after_resume_in_other_db") // in-memory resume database must be reset
+			}
+		}
 		in.fedTo = start
 		in.phase = 1
 		in.mu.Unlock()
